@@ -918,11 +918,13 @@ class Engine(object):
         """an `unknown` (time-out) is re-tried on fresh solvers with other seeds and, for non-linear queries, the nlsat
         tactic; the first decided answer is taken (any answer is a sound decision of the same query)"""
         self.stats.__dict__["unknown_retries"] = self.stats.__dict__.get("unknown_retries", 0) + 1
-        makers = [lambda: z3.Solver(), lambda: z3.Solver(), lambda: z3.Then("simplify", "qfnra-nlsat").solver(), lambda: z3.Solver()]
+        if self.stats.__dict__["unknown_retries"] > 6:
+            return z3.unknown  # a configuration that keeps timing out is reported inconclusive, not retried for hours
+        makers = [lambda: z3.Solver(), lambda: z3.Then("simplify", "qfnra-nlsat").solver(), lambda: z3.Solver()]
         for k, mk in enumerate(makers):
             try:
                 s2 = mk()
-                s2.set("timeout", self.timeout_ms)
+                s2.set("timeout", min(self.timeout_ms, 20000))
                 try:
                     s2.set("random_seed", 7 + 13 * k + self.seed)
                 except z3.Z3Exception:
